@@ -1780,6 +1780,13 @@ class Isometry(projective.Transformation, HyperbolicObject):
         # 1 for eigenvectors which actually lie in H^n, 0 for outside vectors
         in_plane = np.where(norms > ERROR_THRESHOLD, 0, 1)
 
+        # eigenvectors which are not real do not give points of H^n at
+        # all (their Minkowski "norm" above is meaningless)
+        in_plane = np.where(
+            np.max(np.abs(np.imag(eigvecs)), axis=-2) > ERROR_THRESHOLD,
+            0, in_plane
+        )
+
         # primary sort key is whether or not we're in the plane,
         # secondary is the eigenvalue modulus
         if sort_eigvals:
